@@ -51,6 +51,7 @@ struct ref_result {
 	double last_time;
 	int truncated;            /* hit the safety cap: the model did not die out (generator bug) */
 	uint64_t contract_breaches;
+	char breach[240]; /* the first one, for the generator-bug report */
 	struct ref_ev *global;    /* global delivery order (LP_INIT excluded) */
 	size_t global_n;
 };
